@@ -38,6 +38,11 @@ class ClientModel:
         return why
 
     def call(self, name, control_frame=False):
+        if name in ("next", "iter"):
+            name = "recv"  # the iteration protocol is documented as sequential recv() calls
+        return self._call(name, control_frame)
+
+    def _call(self, name, control_frame=False):
         """-> (outcome, writes).  outcome = ("ret", value) | ("exc", kind) | ("unjudged", why)
         writes = list of ("pong", payload) | ("close",)"""
         writes = []
